@@ -838,7 +838,7 @@ func main() {
 		"samples":                       samples.L,
 		"exhaustive":                    len(unreachable) == 0,
 		"states_unreachable":            unreachable,
-		"rule":                          "chain states (heights 0-8 around every activation height, 120-block chains with monotone and zig-zag timestamps, heights 127/255, 2015-block chains with retarget timespans) x all variants, each also followed by a valid block (thorough: all ordered variant pairs); clock owned through an overlay shim; verdict, tip and UTXO compared with refchain after every delivery",
+		"rule":                          "chain states (heights 0-8 around every activation height, 120-block chains with monotone and zig-zag timestamps, heights 127/255, 2015-block chains with retarget timespans) x all variants, each by CheckBlock+AcceptBlock and by the client's headers-first route (PreCheckBlock at announce, PostCheckBlock on the same object when the data arrives), each also followed by a valid block (thorough: all ordered variant pairs); clock owned through an overlay shim; verdict, tip and UTXO compared with refchain after every delivery",
 	}, []string{
 		"reference rule list refchain.CheckBlock written from Bitcoin Core's CheckBlockHeader/ContextualCheckBlockHeader/CheckBlock/ContextualCheckBlock",
 		"retarget arithmetic in unbounded integers: equals Core for every proof-of-work limit <= 2^234 (mainnet); the harness limit 0x207fffff would overflow Core's 256-bit product and is outside that equivalence",
